@@ -56,6 +56,7 @@ static int g_nextsid = 0;
 static bool g_mt = false;                        // multi-threaded stress mode: no logging, atomic counters only
 static std::atomic<long> g_mt_dtor(0), g_mt_recycle(0);
 static std::ostringstream * g_ev = NULL;
+static std::set<int> g_untagged;              // objects on which a stop-counting conversion (decrement without release) was executed
 
 static int id_of(const Item * it)   // also answers for destroyed objects whose address has not been reused
 {
@@ -320,24 +321,48 @@ static void dump(std::ostringstream & o, std::vector<Ctx *> & cs, std::ostringst
    }
    if (lok && ((unsigned) totfree != pool->Cur())) orc << k << " ORACLE FAIL pool bookkeeping: _curPoolSize " << pool->Cur() << " != free nodes " << totfree << " after op#" << opn << "\n";
 
+   // in scheduled mode the order in which operations *start* does not determine which decrement is the last one, so the
+   // ideal graph (updated per operation) cannot say when an object must go; the property is evaluated on the real
+   // reference graph instead: count = number of counting references, released objects are referenced by nothing
+   std::map<int, int> realcnt;
+   if (g_sched)
+   {
+      for (size_t t=0; t<cs.size(); t++) for (size_t i=0; i<cs[t]->stk.size(); i++)
+         if ((cs[t]->stk[i]() != NULL)&&(cs[t]->stk[i].IsRefCounting())) realcnt[id_of(cs[t]->stk[i]())]++;
+      for (size_t id=0; id<g_objs.size(); id++)
+         if ((!g_objs[id].dead)&&(!(g_objs[id].pooled && freeids.count((int)id))))
+            for (int j=0; j<K; j++) {const ItemRef & r = g_objs[id].addr->_m[j]; if ((r() != NULL)&&(r.IsRefCounting())) realcnt[id_of(r())]++;}
+   }
    int dead = 0;
    for (size_t id=0; id<g_objs.size(); id++)
    {
       const Info & inf = g_objs[id];
-      if (inf.dead) {dead++; if (ideal.mem.count((int)id)) orc << k << " ORACLE FAIL object " << id << " destroyed while counting references to it exist (op#" << opn << ")\n"; continue;}
+      if (inf.dead)
+      {
+         dead++;
+         if (g_sched ? (realcnt.count((int)id) > 0) : (ideal.mem.count((int)id) > 0)) orc << k << " ORACLE FAIL object " << id << " destroyed while counting references to it exist (op#" << opn << ")\n";
+         continue;
+      }
       const Item * it = inf.addr;
       const bool isfree = inf.pooled && (freeids.count((int)id) > 0);
       o << id << (isfree ? "P" : "L") << it->GetRefCount() << "." << it->_val << "[";
       for (int j=0; j<K; j++) {if (j) o << ","; o << refs(it->_m[j]);}
       o << "]b" << inf.births << "d" << inf.deaths << " ";
       // ---- the property, on this object
-      const bool ilive = (ideal.mem.count((int)id) > 0);
+      const bool ilive = g_sched ? (realcnt.count((int)id) > 0) : (ideal.mem.count((int)id) > 0);
       if (isfree)
       {
          if (ilive) orc << k << " ORACLE FAIL object " << id << " returned to its pool while counting references to it exist (op#" << opn << ")\n";
          if ((it->GetRefCount() != 0)||(it->_val != 0)||(!members_null(it))||(it->GetManager() != NULL))
             orc << k << " ORACLE FAIL pooled object " << id << " is not in the freshly-constructed state (op#" << opn << ")\n";
          if (inf.births != inf.deaths) orc << k << " ORACLE FAIL object " << id << " released " << inf.deaths << " times for " << inf.births << " obtains (op#" << opn << ")\n";
+      }
+      else if (g_sched)
+      {
+         const int rc = realcnt.count((int)id) ? realcnt[(int)id] : 0;
+         if ((int) it->GetRefCount() != rc) orc << k << " ORACLE FAIL object " << id << " count " << it->GetRefCount() << " != number of counting references " << rc << " (op#" << opn << ")\n";
+         if ((rc == 0)&&(g_untagged.count((int)id) == 0)) orc << k << " ORACLE FAIL object " << id << " not released although no counting reference to it is left (op#" << opn << ")\n";
+         if (inf.births != inf.deaths+1) orc << k << " ORACLE FAIL object " << id << " released " << inf.deaths << " times for " << inf.births << " obtains while in use (op#" << opn << ")\n";
       }
       else
       {
@@ -361,7 +386,7 @@ static void dump(std::ostringstream & o, std::vector<Ctx *> & cs, std::ostringst
       {
          if (i) o << ",";
          o << refs(c.stk[i]);
-         if (!same(c.stk[i], ideal.stk[c.base+i])) orc << k << " ORACLE FAIL stack slot " << i << " of thread " << t << " differs from the ideal graph (op#" << opn << ")\n";
+         if ((!g_sched)&&(!same(c.stk[i], ideal.stk[c.base+i]))) orc << k << " ORACLE FAIL stack slot " << i << " of thread " << t << " differs from the ideal graph (op#" << opn << ")\n";
       }
       o << ")";
    }
@@ -435,6 +460,7 @@ static const char * do_op(Ctx & c, const std::string & opstr, std::ostringstream
          IRef nv = *ips; if (o == "al") nv.c = false; if (nv.id < 0) nv = IRef();
          *ipd = nv;
          // stop-counting conversion on the same item: by contract the object is not released even at count zero
+         if ((o != "cc")&&(before.id >= 0)&&(before.id == nv.id)&&(before.c)&&(!nv.c)) g_untagged.insert(nv.id);
          if ((o != "cc")&&(before.id >= 0)&&(before.id == nv.id)&&(before.c)&&(!nv.c)&&(d.count(nv.id) == 0)) d.orphans.insert(nv.id);
          d.collect();
       }
@@ -489,11 +515,29 @@ static void finish_case(std::vector<Ctx *> & cs, std::ostringstream & orc, int k
    PoolI * pool = cs[0]->pool;
    if (orc.str().empty())
    {
-      while(!ideal.orphans.empty())   // adopt the objects orphaned by stop-counting conversions
+      // adopt the objects orphaned by stop-counting conversions (count zero, never released, by contract)
+      if (g_sched)
+      {
+         bool again = true;
+         while(again)
+         {
+            again = false;
+            for (std::set<int>::iterator u = g_untagged.begin(); u != g_untagged.end(); ++u)
+            {
+               const int id = *u;
+               if ((!g_objs[id].dead)&&(g_objs[id].addr->GetRefCount() == 0)&&(g_objs[id].addr->GetManager() != NULL || !g_objs[id].pooled))
+               {
+                  {ItemRef adopt(const_cast<Item *>(g_objs[id].addr));}
+                  g_untagged.erase(u); again = true; break;
+               }
+            }
+         }
+      }
+      while(!ideal.orphans.empty())
       {
          const int id = *ideal.orphans.begin();
          ideal.orphans.erase(ideal.orphans.begin());
-         {ItemRef adopt(const_cast<Item *>(g_objs[id].addr));}
+         if ((!g_sched)&&(!g_objs[id].dead)) {ItemRef adopt(const_cast<Item *>(g_objs[id].addr));}
       }
       for (size_t t=0; t<cs.size(); t++) for (size_t i=0; i<cs[t]->stk.size(); i++) cs[t]->stk[i].Reset();
       for (size_t id=0; id<g_objs.size(); id++)
@@ -521,7 +565,7 @@ static void run_single(int k, const std::string & hdr, const std::string & body)
    std::vector<std::string> h = split(hdr, ':');
    const int N = atoi(h[0].c_str()), mx = atoi(h[1].c_str()), S = atoi(h[2].c_str());
    std::ostringstream o, orc;
-   g_objs.clear(); g_addr2id.clear(); g_slab2sid.clear(); g_nextsid = 0; g_sched = false;
+   g_objs.clear(); g_addr2id.clear(); g_slab2sid.clear(); g_nextsid = 0; g_sched = false; g_untagged.clear();
    {
       Ideal ideal; Ctx c;
       c.pool = make_pool(N, (uint32) mx);
@@ -670,7 +714,7 @@ static void run_scheduled(int k, const std::string & hdr, const std::string & bo
    while(progs.size() < 2) progs.push_back("");
    const size_t T = progs.size()-2;
    std::ostringstream o, orc;
-   g_objs.clear(); g_addr2id.clear(); g_slab2sid.clear(); g_nextsid = 0; g_sched = true;
+   g_objs.clear(); g_addr2id.clear(); g_slab2sid.clear(); g_nextsid = 0; g_sched = true; g_untagged.clear();
    std::ostringstream evsink;   // destruction/recycle events are not compared in this mode (their order is implied by the trace)
    {
       Ideal ideal;
